@@ -57,11 +57,12 @@ Matches(pattern, actual) == Len(pattern) = Len(actual) /\ \A k \in 1..Len(patter
 
 (* chained: offsets of the parts within the unsplit master data (write) *)
 PartOffset(d, i) == SumSeq([k \in 1..(i - 1) |-> d.chain[k].len])
-PartPayload(d, i, md) ==            \* explicit lengths; an implicit last length takes the remainder
+(* Defined for explicit lengths only: what an omitted length means for a chained WRITE is not defined anywhere, *)
+(* so P says nothing about it (such definitions are not in the generated domain; ExplicitWriteLens guards it).  *)
+ExplicitWriteLens(d) == d.dir = "w" => \A i \in 1..NParts(d) : d.chain[i].len >= 0
+PartPayload(d, i, md) ==
   IF d.dir = "r" THEN <<>>
-  ELSE LET off == PartOffset(d, i)
-           n == IF d.chain[i].len >= 0 THEN d.chain[i].len ELSE Len(md) - off
-       IN SubSeq(md, off + 1, off + n)
+  ELSE LET off == PartOffset(d, i) IN SubSeq(md, off + 1, off + d.chain[i].len)
 BuildPart(d, i, qq, zz, mvals) == Telegram(qq, zz, EffPbsb(d), EffId(d, i) \o PartPayload(d, i, MData(d, mvals)))
 
 (* ------------------------------- decode --------------------------------- *)
